@@ -201,6 +201,16 @@ def dwarf_histories(ctx, h):
                 seed = rng.randrange(1 << 30)
                 lines.append("H %d %s %s - %s" % (seed, zwcorr.hx(q), zwcorr.hx(inputs), zwcorr.hx(path)))
                 meta.append((seed, q, inputs, path))
+        # rendering histories: one compiled format string shows, execution after execution, DWARF values of every type and
+        # plain values in turn (a rendering must not leave anything behind for the next one: stream flags, fill, width)
+        LOCV_ = "entry attribute ?(label == (DW_AT_location, DW_AT_frame_base)) value ?(type == T_LOCLIST_ELEM)"
+        for path, offs in files[:(4 if ctx.tier == "quick" else len(files))] + files[-3:]:
+            inputs = ("(|D| (10, D unit ?(pos == 0), 10, D entry ?(pos == 1), 255, D entry ?(pos == 1) attribute ?(pos == 0), -7, "
+                      "D %s ?(pos == 0), 10, D %s elem ?(pos == 0), 0x10 10, D abbrev entry ?(pos == 0), 10, \"ab\", [1, 0x2], 0 16 aset, 10))" % (LOCV_, LOCV_))
+            for q in ('"%s"', '"<%s>"', '[dup] "%s"', '"%( type %) %s"'):
+                seed = rng.randrange(1 << 30)
+                lines.append("H %d %s %s - %s" % (seed, zwcorr.hx(q), zwcorr.hx(inputs), zwcorr.hx(path)))
+                meta.append((seed, q, inputs, path))
         rc, out, err = common.run_lines(h.exe, lines, timeout=3600, args=[str(h.budget), "20"])
         recs, cur = [], []
         for l in out:
